@@ -25,48 +25,7 @@ def check(ctx, rep):
     if core is None:
         rep.missing('R07.a', 'crux_core facts')
         return
-    f = c06.method(core, 'crux_core::command::Command', 'is_done')
-    if f is None:
-        rep.missing('R07.a', 'Command::is_done')
-    else:
-        settle = [bb for bb, t in f.calls('crux_core::command::Command::run_until_settled')]
-        empt = {}
-        for bb, t in f.calls('crossbeam_channel::channel::Receiver::is_empty', 'slab::Slab::is_empty'):
-            for fl in c01.field_of_receiver(f, t['args'][0]):
-                empt[fl] = bb
-        # the result can be true only if each of the three stores was empty: assume one of them is non-empty and
-        # look for a definition of the return value that may still be true
-        depends = set(empt) >= {'effects', 'events', 'tasks'}
-        for fl in ('effects', 'events', 'tasks'):
-            if fl not in empt:
-                continue
-            cb = empt[fl]
-            fe, te = c06.bool_edges(f, cb, f.blocks[cb]['t'])
-            removed = [te] if te else []
-            r = f.reachable([0], removed_edges=removed)
-            for bb in r:
-                for st in f.blocks[bb]['st']:
-                    if st['k'] == 'assign' and st['d']['l'] == 0 and st['rv']['k'] == 'use' and st['rv']['a'].get('v') == 1:
-                        depends = False
-                t = f.blocks[bb]['t']
-                if t['k'] == 'call' and t['d']['l'] == 0 and bb != cb:
-                    depends = False
-        # ... and on nothing else: every other value that can influence the result is a violation
-        extra = []
-        for bb, t in f.calls():
-            if bb in settle or bb in [empt.get(x) for x in ('effects', 'events', 'tasks')]:
-                continue
-            if call_matches(t, ['core::ops::deref::Deref::deref', 'core::ops::deref::DerefMut::deref_mut']):
-                continue
-            sinks = flows_to(f, t['d']['l'])
-            if t['d']['l'] == 0 or any(s_[0] in ('return', 'switch') for s_ in sinks):
-                extra.append(norm(t.get('callee') or '?') + ' on ' + ','.join(sorted(c01.field_of_receiver(f, t['args'][0]))) if t['args'] else norm(t.get('callee') or '?'))
-        if extra:
-            depends = False
-        ok = len(settle) == 1 and all(f.dominates(settle[0], b) and settle[0] != b for b in empt.values()) and set(empt) >= {'effects', 'events', 'tasks'} and depends
-        rep.expect('R07.a', ok, 'is_done', 'run_until_settled() then effects.is_empty() && events.is_empty() && tasks.is_empty()',
-                   'Command::is_done no longer settles first and decides on exactly effects, events and tasks (found %s%s)' % (
-                       sorted(empt), '; also decided by ' + ', '.join(extra) if extra else ''))
+    check_is_done(rep, 'R07.a', core)
     # R07.b
     removers = []
     for g in core.built:
@@ -243,6 +202,53 @@ def check(ctx, rep):
     else:
         c05.check_pending_wakers(rep, 'R07.d', core, time)
     rep.assume('NOT DECIDED: exactness of the waker-count heuristic for arbitrary user futures')
+
+
+def check_is_done(rep, rid, core):
+    """Command::is_done settles first and is true only if the effect queue, the event queue and the task slab are all empty, and
+    depends on nothing else"""
+    f = c06.method(core, 'crux_core::command::Command', 'is_done')
+    if f is None:
+        rep.missing(rid, 'Command::is_done')
+    else:
+        settle = [bb for bb, t in f.calls('crux_core::command::Command::run_until_settled')]
+        empt = {}
+        for bb, t in f.calls('crossbeam_channel::channel::Receiver::is_empty', 'slab::Slab::is_empty'):
+            for fl in c01.field_of_receiver(f, t['args'][0]):
+                empt[fl] = bb
+        # the result can be true only if each of the three stores was empty: assume one of them is non-empty and
+        # look for a definition of the return value that may still be true
+        depends = set(empt) >= {'effects', 'events', 'tasks'}
+        for fl in ('effects', 'events', 'tasks'):
+            if fl not in empt:
+                continue
+            cb = empt[fl]
+            fe, te = c06.bool_edges(f, cb, f.blocks[cb]['t'])
+            removed = [te] if te else []
+            r = f.reachable([0], removed_edges=removed)
+            for bb in r:
+                for st in f.blocks[bb]['st']:
+                    if st['k'] == 'assign' and st['d']['l'] == 0 and st['rv']['k'] == 'use' and st['rv']['a'].get('v') == 1:
+                        depends = False
+                t = f.blocks[bb]['t']
+                if t['k'] == 'call' and t['d']['l'] == 0 and bb != cb:
+                    depends = False
+        # ... and on nothing else: every other value that can influence the result is a violation
+        extra = []
+        for bb, t in f.calls():
+            if bb in settle or bb in [empt.get(x) for x in ('effects', 'events', 'tasks')]:
+                continue
+            if call_matches(t, ['core::ops::deref::Deref::deref', 'core::ops::deref::DerefMut::deref_mut']):
+                continue
+            sinks = flows_to(f, t['d']['l'])
+            if t['d']['l'] == 0 or any(s_[0] in ('return', 'switch') for s_ in sinks):
+                extra.append(norm(t.get('callee') or '?') + ' on ' + ','.join(sorted(c01.field_of_receiver(f, t['args'][0]))) if t['args'] else norm(t.get('callee') or '?'))
+        if extra:
+            depends = False
+        ok = len(settle) == 1 and all(f.dominates(settle[0], b) and settle[0] != b for b in empt.values()) and set(empt) >= {'effects', 'events', 'tasks'} and depends
+        rep.expect(rid, ok, 'is_done', 'run_until_settled() then effects.is_empty() && events.is_empty() && tasks.is_empty()',
+                   'Command::is_done no longer settles first and decides on exactly effects, events and tasks (found %s%s)' % (
+                       sorted(empt), '; also decided by ' + ', '.join(extra) if extra else ''))
 
 
 def check_stream_end(rep, rid, core):
